@@ -1,17 +1,238 @@
-//! conductor-verify engine (stub for first build)
-#![allow(dead_code, unreachable_pub, clippy::all, clippy::pedantic)]
+//! Engine `conductor-verify`: the firm-data path of astria-conductor (Celestia blobs -> decode ->
+//! verify against sequencer commits -> reconstruct) under deterministic simulation.
+//!
+//! Mounted inside `astria_conductor::celestia::verify` (see the hook at the end of `verify.rs`).
+//!
+//! Profiles:
+//!   * `default` - C09: adversarial namespace contents, adversarial commits, RPC faults, several
+//!     Celestia heights in flight concurrently;
+//!   * `c07`     - C07 receiver clause: honest commits, every kind of tampering of rollup data;
+//!   * `enum`    - C09: exhaustive enumeration of the commit space of small validator sets against
+//!     `ensure_commit_has_quorum`.
+#![allow(dead_code, unreachable_pub, unused_imports, clippy::all, clippy::pedantic)]
 
 #[path = "/verif/harness/common/mod.rs"]
 pub(crate) mod common;
 
+#[path = "/verif/harness/conductor_verify/enumrun.rs"]
+mod enumrun;
+#[path = "/verif/harness/conductor_verify/pipeline.rs"]
+mod pipeline;
+#[path = "/verif/harness/conductor_verify/scenario.rs"]
+mod scenario;
 #[path = "/verif/harness/conductor_verify/simclient.rs"]
 mod simclient;
+#[path = "/verif/harness/conductor_verify/world.rs"]
+mod world;
+
+use std::collections::BTreeMap;
+
+use scenario::{
+    Op,
+    Scenario,
+};
 pub(crate) use simclient::SimClient;
+
+pub struct ConductorVerify;
+
+impl common::Engine for ConductorVerify {
+    type Scenario = Scenario;
+
+    const NAME: &'static str = "conductor-verify";
+
+    fn generate(profile: &str, tier: &str, seed: u64) -> Scenario {
+        scenario::generate(profile, tier, seed)
+    }
+
+    fn run(sc: &Scenario) -> common::Outcome {
+        if sc.profile == "enum" {
+            enumrun::run(sc)
+        } else {
+            pipeline::run(sc)
+        }
+    }
+
+    fn len(sc: &Scenario) -> usize {
+        sc.ops.len()
+    }
+
+    fn retain(sc: &Scenario, keep: &[bool]) -> Scenario {
+        let mut out = sc.clone();
+        out.ops = sc
+            .ops
+            .iter()
+            .zip(keep.iter())
+            .filter(|(_, k)| **k)
+            .map(|(op, _)| op.clone())
+            .collect();
+        out
+    }
+
+    fn simplify(sc: &Scenario) -> Vec<Scenario> {
+        let mut out = Vec::new();
+        if sc.profile == "enum" {
+            return out;
+        }
+        let cfg = &sc.cfg;
+        if cfg.lat_max_ms != 0 {
+            let mut s = sc.clone();
+            s.cfg.lat_max_ms = 0;
+            out.push(s);
+        }
+        if cfg.rps != 1000 {
+            let mut s = sc.clone();
+            s.cfg.rps = 1000;
+            out.push(s);
+        }
+        if cfg.firm_offset != 0 {
+            let mut s = sc.clone();
+            s.cfg.firm_offset = 0;
+            out.push(s);
+        }
+        // drop the last block if nothing refers to it
+        if cfg.blocks.len() > 1 {
+            let last = (cfg.blocks.len() - 1) as u8;
+            let referenced = sc.ops.iter().any(|op| match op {
+                Op::Sig {
+                    blk, ..
+                }
+                | Op::Meta {
+                    blk, ..
+                }
+                | Op::Roll {
+                    blk, ..
+                }
+                | Op::Rpc {
+                    blk, ..
+                } => *blk == last,
+                _ => false,
+            }) || cfg.blocks.iter().any(|b| b.serve_other == Some(last));
+            if !referenced {
+                let mut s = sc.clone();
+                s.cfg.blocks.pop();
+                out.push(s);
+            }
+        }
+        // everything onto one Celestia height
+        if cfg.n_celestia > 1 {
+            let mut s = sc.clone();
+            s.cfg.n_celestia = 1;
+            for op in &mut s.ops {
+                match op {
+                    Op::Meta {
+                        c, ..
+                    }
+                    | Op::Roll {
+                        c, ..
+                    }
+                    | Op::Junk {
+                        c, ..
+                    }
+                    | Op::Delay {
+                        c, ..
+                    } => *c = 0,
+                    _ => {}
+                }
+            }
+            out.push(s);
+        }
+        for (bi, b) in cfg.blocks.iter().enumerate() {
+            if b.round != 0 {
+                let mut s = sc.clone();
+                s.cfg.blocks[bi].round = 0;
+                out.push(s);
+            }
+            if b.ext {
+                let mut s = sc.clone();
+                s.cfg.blocks[bi].ext = false;
+                out.push(s);
+            }
+            if b.subs.len() > 1 {
+                let mut s = sc.clone();
+                s.cfg.blocks[bi].subs.pop();
+                out.push(s);
+            }
+            if !b.alt_subs.is_empty() {
+                let mut s = sc.clone();
+                s.cfg.blocks[bi].alt_subs.pop();
+                out.push(s);
+            }
+            for (si, sub) in b.subs.iter().enumerate() {
+                if sub.len > 1 {
+                    let mut s = sc.clone();
+                    s.cfg.blocks[bi].subs[si].len = 1;
+                    out.push(s);
+                }
+            }
+            // smaller powers with the same shape
+            if b.powers.iter().any(|p| *p > 9) {
+                let mut s = sc.clone();
+                for p in &mut s.cfg.blocks[bi].powers {
+                    if *p > 9 {
+                        *p = 1 + *p % 9;
+                    }
+                }
+                out.push(s);
+            }
+        }
+        for (i, op) in sc.ops.iter().enumerate() {
+            if let Op::Delay {
+                c,
+                ms,
+            } = op
+            {
+                if *ms != 0 {
+                    let mut s = sc.clone();
+                    s.ops[i] = Op::Delay {
+                        c: *c,
+                        ms: 0,
+                    };
+                    out.push(s);
+                }
+            }
+        }
+        out
+    }
+
+    fn summarize(sc: &Scenario) -> serde_json::Value {
+        let mut kinds: BTreeMap<String, u64> = BTreeMap::new();
+        for op in &sc.ops {
+            *kinds.entry(pipeline::op_kind_name(op)).or_default() += 1;
+        }
+        let blocks: Vec<serde_json::Value> = sc
+            .cfg
+            .blocks
+            .iter()
+            .take(4)
+            .map(|b| {
+                serde_json::json!({
+                    "powers": b.powers, "subs": b.subs.len(), "round": b.round,
+                    "dh": b.commit_height_delta, "vh": b.valset_height_delta,
+                    "serve_other": b.serve_other,
+                })
+            })
+            .collect();
+        serde_json::json!({
+            "profile": sc.profile,
+            "vals": sc.cfg.n_vals, "other_rollups": sc.cfg.n_other_rollups,
+            "base_height": sc.cfg.base_height, "firm_offset": sc.cfg.firm_offset,
+            "rps": sc.cfg.rps, "celestia_heights": sc.cfg.n_celestia,
+            "lat_max_ms": sc.cfg.lat_max_ms,
+            "blocks": blocks,
+            "ops": sc.ops.len(),
+            "op_kinds": kinds,
+            "first_ops": sc.ops.iter().take(if sc.profile == "enum" { 2 } else { 8 }).collect::<Vec<_>>(),
+        })
+    }
+}
 
 #[test]
 fn verif_main() {
     let Some(job) = common::read_job() else {
         return;
     };
-    panic!("unknown engine {}", job.engine);
+    match job.engine.as_str() {
+        "conductor-verify" => common::engine_main::<ConductorVerify>(&job),
+        other => panic!("unknown engine {other}"),
+    }
 }
